@@ -93,8 +93,14 @@ def gen_bands(rng):
             b['maxloss'] = rng.choice([0, 0.5, 5, 7.5, 11.5, 16.5, 18])
         else:
             b['maxloss'] = rng.uniform(0, 22)
-        b['pmd'] = rng.choice([0, 1e-12, 3e-12])
-        b['pdl'] = rng.choice([0, 0.3, 0.5])
+        for key, vals in (('pmd', [0, 1e-12, 3e-12, 0.5e-12]), ('pdl', [0, 0.3, 0.5, 0.25])):
+            u = rng.random()
+            if u < 0.015:
+                pass                                                # key absent: the entry is skipped for this key
+            elif u < 0.02:
+                b[key] = None
+            else:
+                b[key] = rng.choice(vals)
         bands.append(b)
     return bands
 
@@ -133,7 +139,7 @@ def path_bands(case, frm, to):
             for p in profs.values():
                 if p['type'] == c['type']:
                     return p['bands']
-            return [{'lo': None, 'hi': None}]
+            return [{'lo': None, 'hi': None, 'pmd': case['pmd'], 'pdl': case['pdl']}]   # roadm_global_impairment
     return None
 
 
@@ -145,6 +151,14 @@ def chan_loss(bands, f):
                 return 0.0
             if b['maxloss'] is not None:
                 return float(b['maxloss'])
+    return None
+
+
+def chan_imp(bands, f, key):
+    """'roadm-pmd' / 'roadm-pdl' of the first entry containing f that defines it; None = undefined for this carrier"""
+    for b in bands:
+        if (b['lo'] is None or b['lo'] <= f <= b['hi']) and b.get(key) is not None:
+            return float(b[key])
     return None
 
 
@@ -229,7 +243,10 @@ def gen_spectrum(rng, bands, pol, big):
         pdbm.append(float(p))
     ase = [rng.choice([0, rng.uniform(0, 0.2)]) for _ in range(n)]
     nli = [rng.choice([0, rng.uniform(0, 0.1)]) for _ in range(n)]
-    return {'f': f, 'baud': baud, 'slot': slot, 'delta': [float(d) for d in delta], 'pdbm': pdbm, 'ase': ase, 'nli': nli}
+    pmd = [rng.choice([0.0, 1e-12, 1e-12, 2.5e-12, rng.uniform(0, 5e-12)]) for _ in range(n)]
+    pdl = [rng.choice([0.0, 0.1, 0.1, 0.45, rng.uniform(0, 2)]) for _ in range(n)]
+    return {'f': f, 'baud': baud, 'slot': slot, 'delta': [float(d) for d in delta], 'pdbm': pdbm, 'ase': ase, 'nli': nli,
+            'pmd': pmd, 'pdl': pdl}
 
 
 def gen_case_A(rng, big=False):
@@ -354,9 +371,10 @@ def profiles_json(profiles):
         items = []
         for b in p['bands']:
             it = {'frequency-range': {'lower-frequency': b['lo'], 'upper-frequency': b['hi']},
-                  'roadm-pmd': b['pmd'], 'roadm-pdl': b['pdl'], 'roadm-cd': 0, 'roadm-inband-crosstalk': 0}
-            if 'maxloss' in b:
-                it['roadm-maxloss'] = b['maxloss']
+                  'roadm-cd': 0, 'roadm-inband-crosstalk': 0}
+            for key in ('maxloss', 'pmd', 'pdl'):
+                if key in b:
+                    it['roadm-' + key] = b[key]
             items.append(it)
         out.append({'roadm-path-impairments-id': p['id'], PKEY[p['type']]: items})
     return out
@@ -369,7 +387,8 @@ def make_si(sp):
     si = create_arbitrary_spectral_information(np.array(sp['f']), slot_width=np.array(sp['slot']), pch=pw,
                                                baud_rate=np.array(sp['baud']), tx_osnr=40.0, tx_power=pw,
                                                delta_pdb_per_channel=np.array(sp['delta']),
-                                               pmd=1e-12, pdl=0.1)
+                                               pmd=np.array(sp.get('pmd', [1e-12] * len(pw))),
+                                               pdl=np.array(sp.get('pdl', [0.1] * len(pw))))
     si.add_ase(si.pch * np.array(sp['ase']))
     si.add_nli(si.pch * np.array(sp['nli']))
     return si
@@ -381,7 +400,8 @@ def cross(roadm, x):
     si = make_si(x['spectrum'])
     rec = {'f': [float(v) for v in si.frequency], 'baud': [float(v) for v in si.baud_rate],
            'slot': [float(v) for v in si.slot_width], 'off': [float(v) for v in si.delta_pdb_per_channel],
-           'pin': [db(float(v) * 1e3) for v in si.pch]}
+           'pin': [db(float(v) * 1e3) for v in si.pch],
+           'pmd_in': [float(v) for v in si.pmd], 'pdl_in': [float(v) for v in si.pdl]}
     before = (si._signal_ratio.copy(), si._ase_ratio.copy(), si._nli_ratio.copy(), si.frequency.copy(),
               si.baud_rate.copy(), si.slot_width.copy(), si.pmd.copy(), si.pdl.copy())
     try:
@@ -401,8 +421,8 @@ def cross(roadm, x):
     rec['loss_attr'] = [float(v) for v in np.atleast_1d(roadm.loss_pch_db)]
     rec['ref_out'] = float(roadm.ref_pch_out_dbm)
     rec['ref_loss'] = float(roadm.ref_effective_loss)
-    rec['pmd2'] = [float(a) ** 2 - float(b) ** 2 for a, b in zip(so.pmd, before[6])]
-    rec['pdl2'] = [float(a) ** 2 - float(b) ** 2 for a, b in zip(so.pdl, before[7])]
+    rec['pmd_out'] = [float(v) for v in so.pmd]
+    rec['pdl_out'] = [float(v) for v in so.pdl]
     return rec
 
 
@@ -530,7 +550,9 @@ def oracle_crossing(view, x, rec, tag):
     pol = policy_in_force(view, x['deg'])
     n = len(rec['f'])
     losses = [chan_loss(bands, f) for f in rec['f']] if bands is not None else None
+    imps = {k: [chan_imp(bands, f, k) for f in rec['f']] for k in ('pmd', 'pdl')} if bands is not None else None
     well = (bands is not None and pol is not None and losses is not None and all(l is not None for l in losses)
+            and all(v is not None for k in ('pmd', 'pdl') for v in imps[k])
             and x['from'] in view['ref_in'] and (pol[0] == 0 or view['ref_carrier'] is not None))
     if not well:
         return fails, False                       # broken configuration: only the correspondence judges it
@@ -561,11 +583,10 @@ def oracle_crossing(view, x, rec, tag):
                                                f"{rec['ref_loss']:.9f}, expected {exp_ref:.9f}"))
     for i in range(n if not fails else 0):
         # PMD / PDL of the internal path are added in quadrature (secondary clause)
-        for key, obs2, base in (('pmd', rec['pmd2'][i], 1e-12), ('pdl', rec['pdl2'][i], 0.1)):
-            imp = next((b.get(key, view[key]) for b in bands
-                        if (b['lo'] is None or b['lo'] <= rec['f'][i] <= b['hi']) and b.get(key, view[key]) is not None), None)
-            if imp is not None and abs(obs2 - imp ** 2) > 1e-9 * (imp ** 2 + base ** 2):
-                fails.append(('pmd_pdl', f'{tag}: {key} of carrier {i} not accumulated in quadrature'))
+        for key in ('pmd', 'pdl'):
+            before, after, imp = rec[key + '_in'][i], rec[key + '_out'][i], imps[key][i]
+            if abs(after ** 2 - (before ** 2 + imp ** 2)) > 1e-9 * (before ** 2 + imp ** 2) or after < before:
+                fails.append(('pmd_pdl', f'{tag}: {key} of carrier {i}: {before} -> {after}, expected quadrature sum with {imp}'))
                 break
     return fails, True
 
@@ -654,10 +675,11 @@ def dict_lit(d, ids, conv):
 
 
 def band_lit(b):
-    ml = 'Absent' if 'maxloss' not in b else 'Null' if b['maxloss'] is None else f"(Val {qlit(float(b['maxloss']))})"
+    ml, pmd, pdl = ('Absent' if k not in b else 'Null' if b[k] is None else f"(vq {qlit(float(b[k]))})"
+                    for k in ('maxloss', 'pmd', 'pdl'))
     if b['lo'] is None:
-        return f'bdall {ml}'
-    return f"bd {qlit(float(b['lo']))} {qlit(float(b['hi']))} {ml}"
+        return f'bdall {ml} {pmd} {pdl}'
+    return f"bd {qlit(float(b['lo']))} {qlit(float(b['hi']))} {ml} {pmd} {pdl}"
 
 
 def profiles_lit(profiles):
@@ -675,7 +697,8 @@ def refc_lit(rc):
 
 def cross_lit(x, rec, ids):
     chans = [f"ch {qlit(rec['f'][i])} {qlit(db(rec['baud'][i] / 1e9))} {qlit(db(rec['slot'][i] / 1e9))} "
-             f"{qlit(rec['off'][i])} {qlit(rec['pin'][i])}" for i in range(len(rec['f']))]
+             f"{qlit(rec['off'][i])} {qlit(rec['pin'][i])} {qlit(rec['pmd_in'][i])} {qlit(rec['pdl_in'][i])}"
+             for i in range(len(rec['f']))]
     return f"xg {ids[x['deg']]} {ids[x['from']]} {listlit(chans)}"
 
 
@@ -695,7 +718,7 @@ def term_A(case, obs):
     xs = case['crossings'][:len(obs['crossings'])]
     ids = deg_ids(all_names(case, obs, case['crossings']))
     pd = case['per_degree']
-    return (f"runA {keys3_lit(case['policy'])} {dict_lit(pd.get(PDEG[0], {}), ids, float)} "
+    return (f"runA {keys3_lit(case['policy'])} {qlit(case['pmd'])} {qlit(case['pdl'])} {dict_lit(pd.get(PDEG[0], {}), ids, float)} "
             f"{dict_lit(pd.get(PDEG[1], {}), ids, db)} {dict_lit(pd.get(PDEG[2], {}), ids, db)} "
             f"{profiles_lit(case['profiles'])} {calls_lit(case['calls'], ids)} {refc_lit(case['ref_carrier'])} "
             f"{dict_lit(case['ref_in'], ids, float)} "
@@ -705,7 +728,7 @@ def term_A(case, obs):
 def term_L(case, obs):
     ids = deg_ids(all_names(case, obs, obs['xs']))
     pd = case['per_degree']
-    return (f"runL {keys3_lit(case['eq_policy'])} {keys3_lit(case['policy'])} "
+    return (f"runL {keys3_lit(case['eq_policy'])} {keys3_lit(case['policy'])} {qlit(case['pmd'])} {qlit(case['pdl'])} "
             f"{dict_lit(pd.get(PDEG[0], {}), ids, float)} {dict_lit(pd.get(PDEG[1], {}), ids, db)} "
             f"{dict_lit(pd.get(PDEG[2], {}), ids, db)} {listlit([str(ids[d]) for d in obs['next_oms']])} "
             f"{profiles_lit(case['profiles'])} {calls_lit(obs['calls'] if obs['stage'] is None else [], ids)} "
@@ -721,9 +744,10 @@ def fr(s):
 def parse_cross(seg):
     if seg.startswith('E:'):
         return {'exc': seg[2:].split(':')[0]}
-    a, b, c, d = seg.split('|')
+    a, b, c, d, e, f = seg.split('|')
     return {'out': [fr(v) for v in a.split(',') if v], 'loss': [fr(v) for v in b.split(',') if v],
-            'ref_out': fr(c), 'ref_loss': fr(d)}
+            'ref_out': fr(c), 'ref_loss': fr(d),
+            'pmd2': [fr(v) for v in e.split(',') if v], 'pdl2': [fr(v) for v in f.split(',') if v]}
 
 
 def close(a, b):
@@ -742,6 +766,9 @@ def diff_cross(rec, m):
         return 'loss_pch_db'
     if abs(rec['ref_out'] - m['ref_out']) > TOL or abs(rec['ref_loss'] - m['ref_loss']) > TOL:
         return 'ref_pch_out_dbm / ref_effective_loss'
+    for key in ('pmd', 'pdl'):
+        if len(rec[key + '_out']) != len(m[key + '2']) or any(abs(a * a - b) > 1e-9 * b for a, b in zip(rec[key + '_out'], m[key + '2'])):
+            return f'{key} after the crossing (quadrature accumulation)'
     return None
 
 
@@ -788,7 +815,7 @@ def compare(case, obs, line, ids):
         d = diff_cross(rec, parse_cross(seg))
         if d:
             return ('corr:Roadm.propagate', f'crossing #{k}: {d}',
-                    {kk: rec.get(kk) for kk in ('exc', 'msg', 'out', 'loss_attr', 'ref_out', 'ref_loss')}, seg[:400])
+                    {kk: rec.get(kk) for kk in ('exc', 'msg', 'out', 'loss_attr', 'ref_out', 'ref_loss', 'pmd_out', 'pdl_out')}, seg[:400])
     return None
 
 
@@ -910,7 +937,5 @@ def run(ctx):
         'PSD / PSW values are > 0 (no dB value otherwise); frequency-range entries have both bounds or none',
         'loader level: the internal paths (set_roadm_paths calls) and ref_pch_in_dbm of the designed element are '
         'observed on the implementation, the model recomputes everything else',
-        "every impairment entry carries 'roadm-pmd' and 'roadm-pdl' (an entry without them makes Roadm.propagate "
-        'raise TypeError after the powers were already equalised; outside this property)',
     ]
     return common.finish(ctx, MATCHERS)
